@@ -21,7 +21,7 @@ def vcmd_path():
 
 
 def pct(s):
-    return urllib.parse.quote(s, safe='')
+    return urllib.parse.quote(s, safe='', errors='surrogateescape')
 
 
 def rule(pred, exit=0, out='', err='', fault=None, delay_us=0):
@@ -181,9 +181,9 @@ def eval_spec(rules, text):
                 if k == 'exit':
                     ex = int(v)
                 elif k == 'out':
-                    out = urllib.parse.unquote(v)
+                    out = urllib.parse.unquote(v, errors='surrogateescape')
                 elif k == 'err':
-                    err = urllib.parse.unquote(v)
+                    err = urllib.parse.unquote(v, errors='surrogateescape')
                 elif k == 'fault':
                     fault = v
                 elif k == 'delay':
@@ -497,7 +497,10 @@ def read_jsonl(path):
     with open(path, 'rb') as f:
         for line in f:
             try:
-                out.append(json.loads(line.decode('utf-8', 'replace')))
+                # bytes that are not UTF-8 (a command's output) stay
+                # distinguishable
+                out.append(json.loads(line.decode('utf-8',
+                                                  'surrogateescape')))
             except ValueError:
                 out.append({'ev': 'garbled', 'raw': line[:200].decode(
                     'latin-1')})
@@ -516,8 +519,9 @@ def run_vcmd(cmd, specfile, file, extra=(), log=None):
                        capture_output=True,
                        env=env,
                        timeout=60)
-    return p.returncode, p.stdout.decode('utf-8', 'replace'), p.stderr.decode(
-        'utf-8', 'replace')
+    return p.returncode, p.stdout.decode(
+        'utf-8', 'surrogateescape'), p.stderr.decode('utf-8',
+                                                     'surrogateescape')
 
 
 def matches(golden, run, ignore_out=False, ignore_err=False, match_out=None,
